@@ -518,3 +518,31 @@ Definition expected_leases (g : registry) (live : list ((N * N) * session)) : li
 (* index of a delegated prefix back to its address (PrefixAllocator.indexToIPNet), for printing *)
 Definition index_to_prefix (d : pdpool) (i : N) : N :=
   ((d_base d + N.shiftl i (128 - d_plen d)) mod (n64 * n64))%N.
+
+(* ---------- specification-level runs used by the theorems ---------- *)
+(* the active node handles a list of lifecycle events: final sender state and everything emitted *)
+Fixpoint sender_run (sn : sender) (evs : list (session * bool)) : sender * list req :=
+  match evs with
+  | [] => (sn, [])
+  | (s, rel) :: t =>
+      let (sn1, oq) := sender_event sn s rel in
+      let (sn2, l) := sender_run sn1 t in
+      (sn2, match oq with Some q => q :: l | None => l end)
+  end.
+Definition live_run (evs : list (session * bool)) : list ((N * N) * session) :=
+  fold_left (fun l e => live_step l (fst e) (snd e)) evs [].
+
+(* [delivery reqs m d m']: the list [d] handed to the standby delivers the stream [reqs] in order, starting with
+   m messages already delivered and ending with m', where any message delivered before may be delivered again
+   at any point (duplicates, retransmissions, replays of earlier ranges) *)
+Inductive delivery (reqs : list req) : nat -> list req -> nat -> Prop :=
+| dl_nil m : delivery reqs m [] m
+| dl_next m q d m' : nth_error reqs m = Some q -> delivery reqs (S m) d m' -> delivery reqs m (q :: d) m'
+| dl_dup m k q d m' : (k < m)%nat -> nth_error reqs k = Some q -> delivery reqs m d m' -> delivery reqs m (q :: d) m'.
+
+(* what today's receiver tolerates: every retransmission starts at or before the first undelivered message and
+   runs on, without a gap, at least to the newest message delivered so far (what a replay of the backlog does) *)
+Inductive delivery_runs (reqs : list req) : nat -> list req -> nat -> Prop :=
+| dr_nil m : delivery_runs reqs m [] m
+| dr_run m a b d m' : (a <= m)%nat -> (m <= b)%nat -> (b <= length reqs)%nat ->
+    delivery_runs reqs b d m' -> delivery_runs reqs m (firstn (b - a) (skipn a reqs) ++ d) m'.
